@@ -271,6 +271,11 @@ func Le(a, b *Term) *Term { return cmp("<=", a, b) }
 func Gt(a, b *Term) *Term { return cmp(">", a, b) }
 func Ge(a, b *Term) *Term { return cmp(">=", a, b) }
 
+// Eidx: position of element i of a slice with offset off. An uninterpreted
+// symbol (defined as off+i by a prelude axiom) so that quantified facts about
+// "a[i]" have a pattern without interpreted arithmetic.
+func Eidx(off, i *Term) *Term { return App(SInt, "sidx", off, i) }
+
 func Select(arr, idx *Term) *Term {
 	return mk(arr.Sort.ElemOfArr(), "select", arr, idx)
 }
@@ -337,6 +342,8 @@ const prelude = `(declare-sort Ref 0)
 (declare-datatypes ((Ptr 0)) (((mkptr (parr Ref) (pidx Int)))))
 (declare-datatypes ((Slice 0)) (((mkslice (sarr Ref) (soff Int) (slen Int) (scap Int)))))
 (declare-fun birth (Ref) Int)
+(declare-fun sidx (Int Int) Int)
+(assert (forall ((o Int) (i Int)) (! (= (sidx o i) (+ o i)) :pattern ((sidx o i)))))
 (declare-const nilref Ref)
 (assert (= (birth nilref) (- 1)))
 (declare-const nil_Iface Iface)
